@@ -5,7 +5,7 @@
     quantified and constrained only by the stated hypotheses [nearest_spec], [lin_affine_ok],
     [lin_domain_ok], [lin_hull_ok].
     This file contains only statements; proofs are in FVP.Regrid_proofs. *)
-From Coq Require Import List ZArith QArith Bool.
+From Coq Require Import List ZArith QArith Bool Lia.
 From FV Require Import Base Arr Regrid.
 From FVP Require Import Regrid_proofs.
 Import ListNotations.
@@ -179,7 +179,7 @@ Example C16_nearest_nonvacuous :
      = Done (KBits [false; false; true; false]) [CVal 2; CVal 3; CMasked; CVal 4].
 Proof.
   split; [exact nearest_first_spec|]. repeat split; try reflexivity.
-  exists 1%nat. split; [simpl; auto with arith|reflexivity].
+  exists 1%nat. split; [simpl; lia|reflexivity].
 Qed.
 
 (** a re-layout: permutation [pi] of the four locations, nothing masked *)
@@ -193,9 +193,8 @@ Example C16_identity_nonvacuous :
      = Done KFlex [CVal 1; CVal 3; CVal 2; CVal 4].
 Proof.
   split; [repeat constructor|]. split; [repeat constructor|]. split; [|reflexivity].
-  intros j Hj. destruct j as [|[|[|[|j]]]]; simpl in Hj;
-    try (exfalso; repeat apply Nat.succ_lt_mono in Hj; inversion Hj);
-    (split; [simpl; auto with arith|]; split; [reflexivity|]; unfold same_loc; simpl; reflexivity).
+  intros j Hj. destruct j as [|[|[|[|j]]]]; simpl in Hj; try lia;
+    (split; [simpl; lia|]; split; [reflexivity|]; unfold same_loc; simpl; reflexivity).
 Qed.
 
 (** the distinctness hypothesis of C16_identity_layouts holds for [ex_spts] *)
@@ -205,9 +204,7 @@ Example C16_identity_distinct :
 Proof.
   intros i i' Hi Hi' H.
   destruct i as [|[|[|[|i]]]]; destruct i' as [|[|[|[|i']]]]; simpl in Hi, Hi';
-    try reflexivity;
-    try (exfalso; repeat apply Nat.succ_lt_mono in Hi; inversion Hi; fail);
-    try (exfalso; repeat apply Nat.succ_lt_mono in Hi'; inversion Hi'; fail);
+    try reflexivity; try lia;
     exfalso; unfold same_loc in H; simpl in H; vm_compute in H; discriminate.
 Qed.
 
@@ -225,14 +222,15 @@ Example C16_linear_nonvacuous :
   /\ (forall i, (i < length ex_lspts)%nat -> masked_at ex_lmask i = false ->
                 nth i ex_lvals 0 == affine_fn (1 # 2) [1; 2] (nth i ex_lspts []))
   /\ regrid_linear nearest_first lin_tri false None (Some KFlex) ex_lmask false ex_lspts ex_lvals ex_ltpts
-     = Done (KBits [false; false; true; true]) [CVal (5 # 4); CVal 2; CMasked; CMasked]
+     = Done (KBits [false; false; true; true]) [CVal (640 # 512); CVal (256 # 128); CMasked; CMasked]
   /\ regrid_linear nearest_first lin_tri true None (Some KFlex) ex_lmask false ex_lspts ex_lvals ex_ltpts
-     = Done KFlex [CVal (5 # 4); CVal 2; CVal (3 # 2); CVal (5 # 2)].
+     = Done KFlex [CVal (640 # 512); CVal (256 # 128); CVal (3 # 2); CVal (5 # 2)]
+  /\ 640 # 512 == affine_fn (1 # 2) [1; 2] [1 # 4; 1 # 4] /\ 256 # 128 == affine_fn (1 # 2) [1; 2] [1 # 2; 1 # 2].
 Proof.
   split; [reflexivity|]. split; [exact lin_tri_affine|]. split; [exact lin_tri_domain|].
-  split; [exact lin_tri_hull|]. split; [|split; vm_compute; reflexivity].
+  split; [exact lin_tri_hull|]. split; [|repeat split; vm_compute; reflexivity].
   intros i Hi Hm. destruct i as [|[|[|[|i]]]]; simpl in Hm; try discriminate; try (vm_compute; reflexivity).
-  simpl in Hi. exfalso. repeat apply Nat.succ_lt_mono in Hi. inversion Hi.
+  simpl in Hi. lia.
 Qed.
 
 Print Assumptions C16_nearest.
